@@ -227,6 +227,17 @@ def run_kernel(ctx, P, fn, stem, isa, maxn):
     return runs
 
 
+_ORD = {}
+
+
+def _order(fn):
+    """preorder position of every node of a (possibly helper-expanded) function body"""
+    k = id(fn)
+    if k not in _ORD:
+        _ORD[k] = {n_.i: j for j, n_ in enumerate(fn.body.walk())}
+    return _ORD[k]
+
+
 def _casts_pointer_to_integer(P, fn, depth=0):
     for n in fn.body.walk():
         if n.k in ("CStyleCastExpr", "ImplicitCastExpr") and n.get("ck") == "PointerToIntegral":
@@ -272,7 +283,7 @@ def run(ctx):
     ctx.clause("C15.3 match_copy kernels: block copies no wider than the guarded distance")
     from ..rules import overlap
     overlap.run(ctx, decoders=False)
-    init = P.fn("carquet_simd_dispatch_init", DP)
+    init = P.inlined(P.fn("carquet_simd_dispatch_init", DP), 2)    # helpers that install a group of slots are expanded
     rec = P.record("carquet_simd_dispatch_t") if "carquet_simd_dispatch_t" in P.records else None
     if rec is None:
         for name, r in P.records.items():
@@ -312,7 +323,10 @@ def run(ctx):
             ctx.bad("R5.dispatch", key, P.where(init.body), "slot %s has an unconditional scalar implementation" % s)
             continue
         fname, node = scalar[s]
-        ok = fname == "scalar_" + s and (first_override is None or init.cfg.node_dominates(node, first_override))
+        order = {n_.i: k_ for k_, n_ in enumerate(init.body.walk())}
+        uncond = not any(a_.k in ("IfStmt", "ForStmt", "WhileStmt", "DoStmt", "SwitchStmt", "ConditionalOperator")
+                         for a_ in node.ancestors())
+        ok = fname == "scalar_" + s and uncond and (first_override is None or order[node.i] < order[first_override.i])
         ctx.ob("R5.dispatch", key, P.where(node),
                "slot %s is set to scalar_%s before any ISA override" % (s, s), ok, "assigned %s" % fname)
     # overrides
@@ -352,7 +366,7 @@ def run(ctx):
           and a.c[0].strip().name == "g_dispatch_initialized"]
     ctx.ob("R5.dispatch", "init-flag-last|%s" % DP, P.where(init.body),
            "g_dispatch_initialized is set after the last slot assignment",
-           len(fl) == 1 and all(init.cfg.node_dominates(n, fl[0]) for _, _, cap, n in assigns if cap is None))
+           len(fl) == 1 and all(_order(init)[n.i] < _order(init)[fl[0].i] for _, _, cap, n in assigns))
 
     # wrappers
     nw = 0
